@@ -53,7 +53,7 @@ func checkC05(c *Check, p *Program) {
 	instrsOf(sender, func(in ssa.Instruction) {
 		if s, ok := in.(*ssa.Select); ok {
 			for _, st := range s.States {
-				if st.Dir == types.RecvOnly && chanField(st.Chan) == a.ack {
+				if st.Dir == types.RecvOnly && chanIs(st.Chan, a.ack) {
 					sel = s
 				}
 			}
@@ -84,7 +84,7 @@ func checkC05(c *Check, p *Program) {
 					if o := calleeObj(call); o != nil && o.Name() == "Close" && callRecv(call) != nil && loadedField(callRecv(call)) == a.sock {
 						ended = true
 					}
-					if builtinName(call) == "close" && chanField(call.Common().Args[0]) == a.done {
+					if builtinName(call) == "close" && chanIs(call.Common().Args[0], a.done) {
 						ended = true
 					}
 				}
